@@ -582,7 +582,8 @@ class VirtRig:
         handler = _Collect(self)
         old_handlers = list(labtech.logger.handlers)
         old_level = labtech.logger.level
-        labtech.logger.handlers = [handler]
+        # (the caller's logger carries more than one handler, as it does with the default console handler plus one's own)
+        labtech.logger.handlers = [logging.NullHandler(), handler]
         labtech.logger.setLevel(logging.INFO)
         saved_mp = P.multiprocessing
         P.multiprocessing = VirtualMP(self)
